@@ -44,11 +44,13 @@ PROPS = {
                              "a method that omits the lock has no schedule point and runs atomically here (C07 catches that mutation)",
                              "the clock is constant during the concurrent phase, as the property stipulates"]),
     "C07": dict(driver="race", mode="pairwise",
-                quick={"iters": 30, "reps": 4, "programs": 60, "prog_ops": 25},
-                thorough={"iters": 300, "reps": 8, "programs": 2000, "prog_ops": 40},
+                quick={"iters": 30, "reps": 4, "programs": 60, "prog_ops": 25, "sched_cases": 300, "sched_exhaust": 30},
+                thorough={"iters": 300, "reps": 8, "programs": 2000, "prog_ops": 40, "sched_cases": 3000, "sched_exhaust": 200, "sched_maxops": 3},
                 rule="for every container (thread_safe::yes) every unordered pair {A,B} of public member functions incl. A=B is run on two free threads released together, "
                      "each calling its method `iters` times with generated arguments over a shared small key universe after a generated prefix that fills the container and "
-                     "expires part of it (complete matrix; thorough adds 3-4 thread random programs); distinct = (container, A, B, seed); "
+                     "expires part of it (complete matrix, four repetitions: Tracked / std::string / BigTracked values at capacity 1-4, and capacity 150 with long ranges; plus 3-4 thread random programs); "
+                     "then generated thread programs are run under harness-chosen schedules (the schedule engine's baton scheduler, hidden from TSan by annotations) with ThreadSanitizer as the oracle; "
+                     "distinct = (container, A, B, seed); "
                      "non-trivial = both threads finished, their execution windows overlapped in wall-clock time and at least one call took a hit path",
                 assumptions=["ThreadSanitizer sees only instrumented code: accesses inside libstdc++.so (list splice, rb-tree rebalance) are invisible, header code (hash lookup, element fields, counters) is visible",
                              "the OS scheduler decides the interleaving; detection is happens-before based and does not need the accesses to overlap in time"]),
